@@ -17,7 +17,8 @@ and refers to that name before the inner declaration (C02/tdz); declarations ins
 parameter defaults/patterns of, and array or object literals containing identifiers inside the body of, an
 object-literal method/accessor that is written inside a parenthesised expression (C02/paren-method); a function
 whose parameter default references a name that its body declares with `var` (C02/default-var), or declares at all
-when the function also has a rest parameter (C02/rest-default).
+when the function also has a rest parameter (C02/rest-default); a function that contains `with`, declares a name
+that the renamer may hand out, and refers to a local of an enclosing function (C02/with-inner).
 """
 
 # the order in which the minifier hands out names is private to it; these are all names of length 1
@@ -448,6 +449,7 @@ def module_program(rnd):
 POOL = ['e', 't', 'n', 's', 'o', 'i', 'a', 'r', 'x', 'y', '$', '_', 'ee', 'te', 'v1', 'E', 'T']
 FN_POOL = ['fe', 'ft', 'nn', 'F1', 'tt']
 CL_POOL = ['Ce', 'Ct', 'K1']
+WPOOL = ['we_01', 'wt_02', 'wn_03', 'ws_04', 'wo_05', 'wi_06']
 
 
 class _Gen:
@@ -461,6 +463,7 @@ class _Gen:
         self.n = 0
         self.paren_method = 0     # >0 while generating the body of an object-literal method written inside (...)
         self.allow_with = True
+        self.withfn = False       # the function being generated contains a with statement
         self.strict = 0           # >0 inside class bodies (strict mode: no with)
 
     def val(self, name):
@@ -470,7 +473,14 @@ class _Gen:
     def uses(self, k):
         # (no array/object literal with identifiers inside a parenthesised object-literal method:
         #  known finding C02/paren-method)
-        return ''.join(ref(self.r, POOL, plain=self.paren_method > 0) for _ in range(k))
+        names = POOL + WPOOL if self.withfn else POOL
+        return ''.join(ref(self.r, names, plain=self.paren_method > 0) for _ in range(k))
+
+    def dpool(self):
+        # Own names of a function that contains `with` keep their spelling; they are taken from a pool that no
+        # generated name can equal, because such a function also refers to locals of the functions around it
+        # (known finding C02/with-inner: an outer local is shortened to a name that the with-function declares)
+        return WPOOL if self.withfn else POOL
 
     def emit_decls(self, decls):
         """decls: list of (kw, name); consecutive declarations with the same keyword are sometimes written as
@@ -520,7 +530,7 @@ class _Gen:
         s = []
         lex, vars_ = set(), set()
         decls = []
-        for nm in r.sample(POOL, r.choice([0, 1, 1, 2, 2, 3, 4])):
+        for nm in r.sample(self.dpool(), r.choice([0, 1, 1, 2, 2, 3, 4])):
             kw = r.choice(['let', 'const', 'var', 'var'])
             if kw == 'var' and (nm in no_var or nm in lex):
                 kw = 'let'
@@ -531,7 +541,7 @@ class _Gen:
         s.append(self.emit_decls(decls))
         tail = ''
         with_stmt = ''
-        if is_func and self.allow_with and not self.strict and r.random() < 0.15:
+        if is_func and self.withfn:
             # nothing is referenced inside the with body, so the excluded construct (with-outer) cannot arise, but the
             # function - including every block scope and every code after nested functions - must keep its names
             with_stmt = r.choice(['with({}){}', 'with({}){out("w")}', 'with(out){}'])
@@ -594,7 +604,9 @@ class _Gen:
                       'named', 'getter', 'if', 'labeled', 'classm', 'gen', 'forpat', 'forvar', 'forin', 'catchpat',
                       'switch2'])
         if k in ('func', 'arrow', 'method', 'named', 'classm', 'gen'):
-            ps = r.sample(POOL, r.choice([0, 1, 2, 3]))
+            saved_withfn = self.withfn
+            self.withfn = self.allow_with and not self.strict and k != 'classm' and r.random() < 0.12
+            ps = r.sample(self.dpool(), r.choice([0, 1, 2, 3]))
             # (a parenthesised object-literal method gets plain parameters: known finding C02/paren-method)
             self.default_names = set()
             pl, args = self.params(ps, plain=(k == 'method'))
@@ -609,6 +621,7 @@ class _Gen:
                 self.strict -= 1
             if k == 'method':
                 self.paren_method -= 1
+            self.withfn = saved_withfn
             if k == 'func':
                 return '(function(%s){%s})(%s);' % (pl, body, args)
             if k == 'arrow':
@@ -624,9 +637,12 @@ class _Gen:
                 return '[...(function*(%s){%syield 1})(%s)];' % (pl, body, args)
             return '({m(%s){%s}}).m(%s);' % (pl, body, args)
         if k == 'getter':
+            saved_withfn = self.withfn
+            self.withfn = self.allow_with and not self.strict and r.random() < 0.12
             self.paren_method += 1
             body = self.func_body(depth, [])
             self.paren_method -= 1
+            self.withfn = saved_withfn
             return '({get g(){%s}}).g;' % body
         if k == 'block':
             return '{%s}' % self.scope(depth, False, set(), no_var)
@@ -641,27 +657,27 @@ class _Gen:
             a = self.scope(depth, False, set(), no_var)
             return 'switch(2){case 1:out("no");case 2:%sdefault:%s}' % (a, self.uses(1))
         if k == 'forpat':
-            v, w = r.sample(POOL, 2)
+            v, w = r.sample(self.dpool(), 2)
             inner = 'out(%s,%s);' % (v, w) + self.scope(depth, False, {v, w}, no_var | {v, w})
             if r.random() < 0.5:
                 return 'for(const [%s,%s] of [[%s,%s]]){%s}' % (v, w, self.val(v), self.val(w), inner)
             return 'for(let {%s,k:%s} of [{%s:%s,k:%s}]){%s}' % (v, w, v, self.val(v), self.val(w), inner)
         if k == 'forvar':
-            cand = [x for x in POOL if x not in no_var]
+            cand = [x for x in self.dpool() if x not in no_var]
             if cand:
                 v = r.choice(cand)
                 inner = 'out(%s);' % v + self.scope(depth, False, {v}, no_var)
                 return r.choice(['for(var %s of [%s]){%s}', 'for(var %s in {%s:1}){%s}']) % (v, self.val(v), inner)
             k = 'forin'
         if k == 'forin':
-            v = r.choice(POOL)
+            v = r.choice(self.dpool())
             inner = 'out(%s);' % v + self.scope(depth, False, {v}, no_var | {v})
             return 'for(const %s in {%s:1}){%s}' % (v, self.val(v), inner)
         if k == 'catchpat':
-            v, w = r.sample(POOL, 2)
+            v, w = r.sample(self.dpool(), 2)
             inner = self.scope(depth, False, {v, w}, no_var | {v, w})
             return 'try{throw {m:%s,n:[%s]}}catch({m:%s,n:[%s]}){out(%s,%s);%s}' % (self.val(v), self.val(w), v, w, v, w, inner)
-        v = r.choice(POOL)
+        v = r.choice(self.dpool())
         if k in ('for', 'forof'):
             # the body block may declare the loop variable's name again (a separate scope in ECMAScript), but then
             # nothing refers to that name before the inner declaration (temporal dead zone; known finding C02/tdz)
